@@ -72,6 +72,10 @@ def plan(tier, seed):
     for i in range(12 if tier == "quick" else 150):
         cases.append({"kind": "generic", "index": 2 * i, "seed": [seed, 10, i], "cfg": cfg, "unit": [1e-14, 1e290, 1e-30, 1e200, 1e-8, 1e100][i % 6],
                       "force": {"poison": False}, "jit_false": False, "env": {"VERIF_X64": "1"}})
+    # hundreds of feasible combinations of filter-restricted states (and many categories)
+    for i in range(4 if tier == "quick" else 40):
+        cases.append({"kind": "generic", "template": ["many_restricted", "many_categories"][i % 2], "index": 1 + 2 * i, "seed": [seed, 11, i], "cfg": "quick",
+                      "jit_false": i % 4 == 0, "env": {"VERIF_X64": "1"}})
     # models without state variables (scalar value arrays)
     for i in range(6 if tier == "quick" else 60):
         cases.append({"kind": "generic", "template": "stateless", "index": 1 + 2 * i, "seed": [seed, 9, i], "cfg": "quick",
